@@ -477,6 +477,25 @@ def collect_variable_lookup(
         variable_lookup.append(resolved_kwargs)
 
     ##
+    # Add the default values of the condition's own parameters
+    # (*e.g.*, ``lambda x, limit=10: x < limit`` where the function has no argument ``limit``)
+    ##
+
+    defaults_dict = dict()  # type: Dict[str, Any]
+
+    try:
+        condition_signature = inspect.signature(condition)  # type: Optional[inspect.Signature]
+    except (TypeError, ValueError):
+        condition_signature = None
+
+    if condition_signature is not None:
+        for param in condition_signature.parameters.values():
+            if param.default is not inspect.Parameter.empty:
+                defaults_dict[param.name] = param.default
+
+    variable_lookup.append(defaults_dict)
+
+    ##
     # Add closure to the lookup
     ##
 
